@@ -1483,6 +1483,9 @@ impl TypeChecker {
                         elaboration_kind: "unit definition",
                     })?;
 
+                // A unit is a quantity: reject definitions through strings, booleans, lists, …
+                self.enforce_dtype(&type_deduced, expr.full_span())?;
+
                 for (name, _) in decorator::name_and_aliases(identifier, decorators) {
                     self.env.add(
                         name.to_compact_string(),
